@@ -14,7 +14,7 @@ for c in "$@"; do
 done
 cd /verif
 git fetch -q /tmp/wk/$id/verif work-$id:work-$id || exit 1
-git merge --no-edit work-$id >/dev/null 2>&1
+git add -A; git commit -qm "evidence before merging work-$id" >/dev/null 2>&1; git merge --no-edit work-$id >/dev/null 2>&1
 python3 /verif/tools/merge_resolve.py
 for c in "${!MAP[@]}"; do sed -i "s/$c/${MAP[$c]}/g" known_findings.json DESIGN.md; done
 python3 tools/extract.py && python3 tools/manifest.py && git add -A && git commit -q -m "Merge work-$id" && echo "merged $id"
